@@ -40,6 +40,52 @@ func runC15(c *Ctx) {
 	c15R4(c)
 	c15R5(c)
 	c15StateWriters(c)
+	c14R6As(c, c.R.Rule("R7", "K6 (= C14.R6) a rename is reversible: pipeline.Service.Update frees the OLD name (read before the config is replaced) and reserves the new one — otherwise importing A → B → A, or rolling back a failed renaming import, is refused", 2))
+	c15R8(c)
+}
+
+// c15R8: the exported config is a snapshot, not a view of the live instances.
+func c15R8(c *Ctx) {
+	r := c.R.Rule("R8", "K6 export is a copy: the *ToConfig exporters never put the address of a live instance's field into the exported config (the old config an update action keeps for its rollback must not change when the instance is updated)", 4)
+	n := 0
+	for _, name := range []string{"(*Service).pipelineToConfig", "(*Service).dlqToConfig", "(*Service).connectorToConfig", "(*Service).processorToConfig"} {
+		fn := c.SSA(r, pProv, name)
+		if fn == nil {
+			continue
+		}
+		n++
+		bad := ""
+		for _, b := range fn.Blocks {
+			for _, in := range b.Instrs {
+				fa, ok := in.(*ssa.FieldAddr)
+				if !ok {
+					continue
+				}
+				if !liveRoot(fa.X, 0) {
+					continue // a field of a local copy (a by-value parameter, a local struct)
+				}
+				refs := fa.Referrers()
+				if refs == nil {
+					continue
+				}
+				for _, rr := range *refs {
+					switch y := rr.(type) {
+					case *ssa.UnOp, *ssa.FieldAddr, *ssa.IndexAddr:
+					case *ssa.Store:
+						if y.Val == ssa.Value(fa) {
+							bad = c.Pos(fa.Pos())
+						}
+					default:
+						bad = c.Pos(fa.Pos())
+					}
+				}
+			}
+		}
+		c.R.Check(bad == "", r, name+": no address of a live field escapes into the config", c.Pos(fn.Pos()), "ok", name+" stores the address of a field of the live instance in the exported config ("+bad+"): the 'old config' an import action saved for its rollback silently changes when the action updates the instance, so a failed import restores the NEW values", true)
+	}
+	if n == 0 {
+		c.R.Fail(r, "provisioning exporters", "", "no *ToConfig exporter found")
+	}
 }
 
 // selectorsOn returns the field names selected, inside fd, on expressions of struct type T.
@@ -497,4 +543,44 @@ func c15R5(c *Ctx) {
 		}
 	}
 	c.R.Pass(r, "provisioning never writes a connector's position", "", "no SetState reference in pkg/provisioning", false)
+}
+
+// liveRoot reports whether the address expression v is rooted in memory the
+// caller owns: reached from a pointer parameter (possibly through pointer
+// fields), as opposed to a local copy (a by-value parameter spilled to a cell,
+// a local struct).
+func liveRoot(v ssa.Value, depth int) bool {
+	if depth > 8 {
+		return false
+	}
+	switch x := v.(type) {
+	case *ssa.Parameter:
+		_, isPtr := x.Type().Underlying().(*types.Pointer)
+		return isPtr
+	case *ssa.FieldAddr:
+		return liveRoot(x.X, depth+1)
+	case *ssa.IndexAddr:
+		return liveRoot(x.X, depth+1)
+	case *ssa.UnOp:
+		if x.Op != token.MUL {
+			return false
+		}
+		if a, ok := x.X.(*ssa.Alloc); ok {
+			// a pointer parameter spilled into a cell
+			for _, u := range kit.CellUses(a) {
+				if st, ok := u.Instr.(*ssa.Store); ok && st.Addr == ssa.Value(a) {
+					if p, ok := st.Val.(*ssa.Parameter); ok {
+						return liveRoot(p, depth+1)
+					}
+				}
+			}
+			return false
+		}
+		return liveRoot(x.X, depth+1)
+	case *ssa.FreeVar:
+		if b := kit.ResolveFreeVar(x); b != nil {
+			return liveRoot(b, depth+1)
+		}
+	}
+	return false
 }
